@@ -56,6 +56,7 @@ def enumerations(tier):
 
 
 def check(case, stats):
+    lib.run_primes(case.get("primes"))
     pred, ref, cfg = c01.resolve(case)
     exps, complete, info = PM.expected_results(pred, ref, cfg)
     unique = complete and len(exps) == 1
